@@ -1,4 +1,5 @@
 import IxpeVerif.Model.Select
+import IxpeVerif.Gen.Masks
 /-!
 # C09 — xpselect keeps exactly the rows that satisfy the requested predicate (core Lean only)
 -/
@@ -124,6 +125,15 @@ theorem validate_time_ok (c : Cfg) (tstart tstop p0 p1 : Int) (h : validate c ts
   · intro b hb; simp [outside, hb] at h3; omega
   · intro a b ha hb; simp [notOrdered, ha, hb] at h4; omega
   · simpa using h0
+
+/-! ### T-tie: the mask methods regenerated from `subselect.py` on every run (translator/masks.py) are the model's time and phase masks -/
+theorem gen_time_mask_eq_model (c : Cfg) (r : Row) : Gen.time_selection_mask r.time c.tmin c.tmax c.tinvert = timeMask c r := by
+  unfold Gen.time_selection_mask timeMask geOpt ltOpt
+  cases c.tmin <;> cases c.tmax <;> cases c.tinvert <;> simp
+
+theorem gen_phase_mask_eq_model (c : Cfg) (r : Row) : Gen.phase_selection_mask r.phase c.pmin c.pmax c.pinvert = phaseMask c r := by
+  unfold Gen.phase_selection_mask phaseMask geOpt ltOpt
+  cases c.pmin <;> cases c.pmax <;> cases c.pinvert <;> simp
 
 /-- non-vacuity: a two-sided window on a concrete file passes validation and keeps the boundary row at tmin, drops the one at tmax -/
 example : validate { tmin := some 2, tmax := some 5 } 0 10 0 100 = none ∧
